@@ -111,6 +111,17 @@ def install(ctx):
 
 
 def gen_case(rng, tier, ctx, i):
+    if rng.random() < 0.02:
+        # wide rows over small boxes: the number of combinations of a row leaves the range a double represents exactly (but not 64 bits)
+        n = rng.randint(26, 39)
+        b_ = rng.choice([(0, 2), (-1, 1), (0, 2), (0, 3)])
+        if b_ == (0, 3):
+            n = min(n, 30)
+        rows = [[rng.randint(-3, 3)] + [rng.choice([1, -1, 2, 1]) for _ in range(n)] for _ in range(rng.randint(1, 2))]
+        if rng.random() < 0.5:
+            rows.append([0] + [rng.choice([0, 1, -1]) for _ in range(n)])
+        ctx.count("count:wide-rows")
+        return {"poly": {"M": rows, "ids": ["c%d" % k for k in range(n)], "bounds": [list(b_)] * n, "index": None}, "wide": True}
     p = polygen.gen_poly(rng)
     if rng.random() < 0.5:
         # over-represent |a| > 1 so that the divisions in the tightening are fractional
@@ -121,16 +132,39 @@ def gen_case(rng, tier, ctx, i):
     case = {"poly": p}
     if rng.random() < 0.2:
         case["derive"] = rng.getrandbits(32)
+    elif rng.random() < 0.15:
+        case["redeclare"] = rng.getrandbits(32)
     return case
 
 
 def run_case(case, ctx):
     P = polygen.build_poly(case["poly"])
+    if case.get("wide"):
+        ctx.call("row_bounds", P.row_bounds)
+        ctx.call("column_bounds", P.column_bounds)
+        ctx.call("n_row_combinations", lambda: P.n_row_combinations)
+        return
     ctx.call("tighten_column_bounds", P.tighten_column_bounds)
     ctx.call("row_bounds", P.row_bounds)
     ctx.call("column_bounds", P.column_bounds)
     ctx.call("n_row_combinations", lambda: P.n_row_combinations)
     c11.receiver_unchanged(ctx, case, P)
+    if case.get("redeclare") is not None and not case["poly"].get("dtype"):
+        # one column is re-declared afterwards (an element of P.variables replaced by a variable with other bounds): every answer is about the columns as declared now
+        import random
+        import puan
+        r_ = random.Random(case["redeclare"])
+        j = r_.randrange(1, len(P.variables))
+        v_ = P.variables[j]
+        lo_, hi_ = int(v_.bounds.lower), int(v_.bounds.upper)
+        nb_ = r_.choice([(lo_ - 2, hi_ + 1), (lo_, hi_ + 2), (lo_ - 1, hi_), (min(lo_ + 1, hi_), hi_)])
+        P.variables[j] = puan.variable(v_.id, bounds=(max(-32768, nb_[0]), min(32767, nb_[1])))
+        ctx.count("count:column-redeclared-in-place")
+        ctx.call("tighten_column_bounds", P.tighten_column_bounds)
+        ctx.call("row_bounds", P.row_bounds)
+        ctx.call("column_bounds", P.column_bounds)
+        ctx.call("n_row_combinations", lambda: P.n_row_combinations)
+        return
     if case.get("derive") is not None:
         # a second polyhedron derived from the first one by ordinary array operations, asked the same questions about its own entries
         import random
